@@ -54,7 +54,10 @@ func VerifC03_Match() {
 // ---- actions ----
 
 // c03action builds action kind k with fresh symbolic arguments and writes its specified bytes to w.
-func c03action(k int, w *refW, depth int) Action {
+// rich: every variant of the kind (all nat flag / range subsets, conntrack flags and zone forms,
+// up to two nested conntrack actions, note lengths 0..9, up to two learn specs); otherwise a few
+// presets (used for actions inside lists).
+func c03action(k int, w *refW, depth int, rich bool) Action {
 	start := len(w.b)
 	nx := func(sub uint16) {
 		w.u16(0xffff)
@@ -127,11 +130,11 @@ func c03action(k int, w *refW, depth int) Action {
 	case 10:
 		ct := NewNXActionConnTrack()
 		flags := uint16(0)
-		if vr.Bool("commit") {
+		if !rich || vr.Bool("commit") {
 			ct.Commit()
 			flags |= 1
 		}
-		if vr.Bool("force") {
+		if rich && vr.Bool("force") {
 			ct.Force()
 			flags |= 2
 		}
@@ -139,9 +142,10 @@ func c03action(k int, w *refW, depth int) Action {
 		ct.Table(table)
 		nx(35)
 		w.u16(flags)
-		if vr.Bool("zonerange") {
-			first := vr.IntRange("first", 0, 31)
-			last := vr.IntRange("last", first, 31)
+		if rich && vr.Bool("zonerange") {
+			first, last := int(vr.U8("first")), int(vr.U8("last"))
+			vr.Assume(first <= last)
+			vr.Assume(last <= 31)
 			ct.ZoneRange(regHeader(false), NewNXRange(first, last))
 			w.u32(0x00010204) // NXM_NX_REG1: class 1, field 1, length 4
 			w.u16(uint16(first)<<6 | uint16(last-first))
@@ -157,7 +161,7 @@ func c03action(k int, w *refW, depth int) Action {
 		if depth > 0 {
 			n := vr.IntRange("nct", 0, 2)
 			for i := 0; i < n; i++ {
-				ct.AddAction(c03action([]int{17, 0, 11}[vr.Choice("ctkind", 3)], w, depth-1))
+				ct.AddAction(c03action([]int{17, 0, 11}[vr.Choice("ctkind", 3)], w, depth-1, false))
 			}
 		}
 		a = ct
@@ -182,7 +186,7 @@ func c03action(k int, w *refW, depth int) Action {
 		a = NewNXActionResubmit(ip)
 		nx(1)
 		w.u16(ip)
-		w.u8(0xff) // resubmit(port) leaves the table at "current table" = 255
+		w.u8(0) // ignored by the receiver for this subtype; OVS itself sends 0 here
 		w.zeros(3)
 	case 14, 15, 16:
 		ip, tb := vr.U16("inport"), vr.U8("table")
@@ -204,57 +208,77 @@ func c03action(k int, w *refW, depth int) Action {
 	case 17:
 		nat := NewNXActionCTNAT()
 		flags := uint16(0)
-		if vr.Bool("snat") {
+		// rich, quick tier: either the flag combinations with preset ranges, or all 64 range
+		// subsets with fixed flags (thorough: the full product)
+		varyFlags := rich && (vr.Thorough() || vr.Bool("vary-flags"))
+		varyRanges := rich && (vr.Thorough() || !varyFlags)
+		if !varyFlags || vr.Bool("snat") {
 			nat.SetSNAT()
 			flags |= 1
 		} else {
 			nat.SetDNAT()
 			flags |= 2
 		}
-		if vr.Bool("persistent") {
+		if varyFlags && vr.Bool("persistent") {
 			nat.SetPersistent()
 			flags |= 4
 		}
-		if vr.Bool("hash") {
+		if varyFlags && vr.Bool("hash") {
 			nat.SetProtoHash()
 			flags |= 8
-		} else if vr.Bool("random") {
+		} else if varyFlags && vr.Bool("random") {
 			nat.SetRandom()
 			flags |= 16
 		}
 		present := uint16(0)
 		body := &refW{}
-		if vr.Bool("r4min") {
+		// presets outside the rich variant: ipv4-min only / ipv6-max + proto-min / everything
+		preset := -1
+		if !varyRanges {
+			preset = vr.Choice("natpreset", 3)
+		}
+		has := func(name string, bit int) bool {
+			switch preset {
+			case -1:
+				return vr.Bool(name)
+			case 0:
+				return bit == 0
+			case 1:
+				return bit == 3 || bit == 4
+			}
+			return true
+		}
+		if has("r4min", 0) {
 			ip := symIP4("ip4min")
 			nat.SetRangeIPv4Min(ip)
 			present |= 1
 			body.raw(ip)
 		}
-		if vr.Bool("r4max") {
+		if has("r4max", 1) {
 			ip := symIP4("ip4max")
 			nat.SetRangeIPv4Max(ip)
 			present |= 2
 			body.raw(ip)
 		}
-		if vr.Bool("r6min") {
+		if has("r6min", 2) {
 			ip := symIP16("ip6min")
 			nat.SetRangeIPv6Min(ip)
 			present |= 4
 			body.raw(ip)
 		}
-		if vr.Bool("r6max") {
+		if has("r6max", 3) {
 			ip := symIP16("ip6max")
 			nat.SetRangeIPv6Max(ip)
 			present |= 8
 			body.raw(ip)
 		}
-		if vr.Bool("rpmin") {
+		if has("rpmin", 4) {
 			p := vr.U16("pmin")
 			nat.SetRangeProtoMin(&p)
 			present |= 16
 			body.u16(p)
 		}
-		if vr.Bool("rpmax") {
+		if has("rpmax", 5) {
 			p := vr.U16("pmax")
 			nat.SetRangeProtoMax(&p)
 			present |= 32
@@ -289,7 +313,10 @@ func c03action(k int, w *refW, depth int) Action {
 		nx(18)
 		w.zeros(6)
 	case 22:
-		n := vr.IntRange("nids", 0, 4)
+		n := 1
+		if rich {
+			n = vr.IntRange("nids", 0, 4)
+		}
 		ids := make([]uint16, n)
 		nx(21)
 		w.u16(uint16(n))
@@ -314,14 +341,21 @@ func c03action(k int, w *refW, depth int) Action {
 		w.u8(0)
 		w.u16(l.FinIdleTimeout)
 		w.u16(l.FinHardTimeout)
-		n := vr.IntRange("nspecs", 0, 2)
+		n := 1
+		if rich {
+			n = vr.IntRange("nspecs", 0, 2)
+		}
 		for i := 0; i < n; i++ {
 			l.LearnSpecs = append(l.LearnSpecs, c03learnSpec(w))
 		}
 		w.padTo8()
 		a = l
 	case 24:
-		note := vr.Bytes("note", vr.IntRange("notelen", 0, 9))
+		nl := 3
+		if rich {
+			nl = vr.IntRange("notelen", 0, 9)
+		}
+		note := vr.Bytes("note", nl)
 		n := NewNXActionNote()
 		n.Note = note
 		a = n
@@ -400,7 +434,7 @@ func VerifC03_Action() {
 	k := vr.Choice("kind", nActionKinds)
 	vr.Tag("kind", actionKindNames[k])
 	w := &refW{}
-	a := c03action(k, w, 1)
+	a := c03action(k, w, 1, true)
 	c03eq(a, w.b, "action")
 }
 
@@ -412,7 +446,7 @@ func VerifC03_LearnSpec() {
 
 // ---- instructions ----
 
-func c03instr(k int, w *refW) Instruction {
+func c03instr(k int, w *refW, maxActs int) Instruction {
 	start := len(w.b)
 	switch k {
 	case 0:
@@ -441,9 +475,9 @@ func c03instr(k int, w *refW) Instruction {
 	}
 	w.u16(0)
 	w.zeros(4)
-	n := vr.IntRange("nacts", 0, 2)
+	n := vr.IntRange("nacts", 0, maxActs)
 	for i := 0; i < n; i++ {
-		ia.AddAction(c03action(actionShort[vr.Choice("akind", 5)], w, 0), false)
+		ia.AddAction(c03action(actionShort[vr.Choice("akind", 5)], w, 0, false), false)
 	}
 	w.setU16(start+2, uint16(len(w.b)-start))
 	return ia
@@ -453,7 +487,7 @@ func VerifC03_Instr() {
 	k := vr.Choice("kind", nInstrKinds)
 	vr.Tag("kind", instrKindNames[k])
 	w := &refW{}
-	in := c03instr(k, w)
+	in := c03instr(k, w, 2)
 	c03eq(in, w.b, "instruction")
 }
 
@@ -461,8 +495,8 @@ func VerifC03_Instr() {
 func VerifC03_InstrPrepend() {
 	ia := NewInstrApplyActions()
 	w1, w2 := &refW{}, &refW{}
-	a1 := c03action(0, w1, 0)
-	a2 := c03action(2, w2, 0)
+	a1 := c03action(0, w1, 0, false)
+	a2 := c03action(2, w2, 0, false)
 	ia.AddAction(a1, false)
 	ia.AddAction(a2, true)
 	w := &refW{}
@@ -519,12 +553,12 @@ func VerifC03_FlowMod() {
 	w.u32(f.OutGroup)
 	w.u16(f.Flags)
 	w.zeros(2)
-	f.Match = *c03match(w, 2)
+	f.Match = *c03match(w, 1)
 	isDelete := f.Command == FC_DELETE || f.Command == FC_DELETE_STRICT
 	k := vr.IntRange("ninstr", 0, 2)
 	for i := 0; i < k; i++ {
 		iw := &refW{}
-		f.AddInstruction(c03instr(vr.Choice("ikind", nInstrKinds), iw))
+		f.AddInstruction(c03instr(vr.Choice("ikind", nInstrKinds), iw, 1))
 		if !isDelete {
 			w.raw(iw.b) // delete commands carry no instructions
 		}
@@ -554,7 +588,7 @@ func VerifC03_GroupMod() {
 		bw.zeros(4)
 		n := vr.IntRange("nbacts", 0, 2)
 		for j := 0; j < n; j++ {
-			bk.AddAction(c03action(actionShort[vr.Choice("akind", 3)], bw, 0))
+			bk.AddAction(c03action(actionShort[vr.Choice("akind", 3)], bw, 0, false))
 		}
 		bw.setU16(0, uint16(len(bw.b)))
 		g.AddBucket(*bk)
@@ -577,7 +611,7 @@ func VerifC03_PacketOut() {
 	w.zeros(6)
 	k := vr.IntRange("npacts", 0, 2)
 	for i := 0; i < k; i++ {
-		p.AddAction(c03action(actionShort[vr.Choice("akind", 5)], w, 0))
+		p.AddAction(c03action(actionShort[vr.Choice("akind", 5)], w, 0, false))
 	}
 	w.setU16(16, uint16(len(w.b)-24))
 	if vr.Bool("hasdata") {
